@@ -1854,10 +1854,28 @@ def run_c19(ctx: kernel.Ctx, case: Dict[str, Any]) -> None:
     check_init(ag, "after construction")
     Z = torch.linalg.inv(ag.sigma_inv.double())  # the model restarts from whatever was initialised (reported above if wrong)
     n_dec = 0
+    ghost = None  # (agent the subject was last cloned from, its own reference Gram matrix)
     for oi, op in enumerate(case["ops"]):
         ctx.op_index = oi
         ctx.steps += 1
         k = op["op"]
+        if k == "decide" and ghost is not None:
+            # the agent this one was cloned from is still alive and keeps deciding (tournament survivors do): its matrix is its own
+            g_ag, g_Z = ghost
+            g_obs, _ = A.probe_inputs(cfg, kernel.derive(op["seed"], "ghost"))
+            g_G = _bandit_features(g_ag, g_obs)
+            seed_all(kernel.derive(op["seed"], "ghost"))
+            g_a = int(g_ag.get_action(g_obs))
+            g_Z = g_Z + torch.outer(g_G[g_a], g_G[g_a])
+            g_S = g_ag.sigma_inv.double()
+            g_err = float((g_S @ g_Z - torch.eye(g_S.shape[0], dtype=torch.float64)).abs().max()) if g_S.shape == g_Z.shape else float("inf")
+            ctx.probe("parent_decides_after_clone")
+            if g_err > 5e-3:
+                ctx.report("C19/not_inverse", f"op {oi}: the agent the subject was cloned from decided (arm {g_a}); its matrix is off its own Gram matrix by {g_err:.3e} "
+                                              f"(decisions of its clone leaked into it, or vice versa)", who="parent_of_clone", **w.loc)
+                ghost = None
+            else:
+                ghost = (g_ag, g_Z)
         if k == "decide":
             obs, _ = A.probe_inputs(cfg, op["seed"])
             mask = np.asarray(op["mask"]) if op.get("mask") else None
@@ -1895,6 +1913,7 @@ def run_c19(ctx: kernel.Ctx, case: Dict[str, Any]) -> None:
                 ctx.probe(f"mutate_{op['kind']}")
             elif k == "clone":
                 seed_all(op["seed"])
+                ghost = (ag, Z.clone())
                 ag = ag.clone()
             elif k == "save_restore":
                 data = w.save_bytes(ag)
